@@ -5,6 +5,22 @@ COMMON_TRUST = [
 ]
 
 PROPS = {
+    "C01": dict(
+        level_text="Model/PieceStore.v is the piece store as a transition system whose actions are the critical sections of tor/piece/piece.go (AddData, Finalise split into begin/end with the piece busy in between, ReadAt, del, del(force), the deleted latch); every interleaving of any number of goroutines is a sequence of actions. Theorems over every sequence: a complete piece holds all its blocks and its digest equals the metainfo's, a busy piece holds all its blocks (c01_invariant); ReadAt changes nothing and returns content only from a complete piece, at the block's place (c01_read_verified); nobody can change or free a buffer while it is hashed (c01_busy_is_kept). Tie: deterministic operation sequences on a real piece.Pieces (good/corrupt/duplicate/out-of-order/over-long blocks, finalise, reads at any offset, aged eviction, deletion, data after deletion; pieces of 16 KiB-256 KiB incl. mmap'd ones, short last piece and block) with results and the whole store state (buffers held, pieces verified, block bitmaps, Count, Bytes, alloc.Bytes) compared after every operation; concurrent stress runs (4-11 goroutines, pieces up to 4 MiB that start full so that hashing is always going on, corrupt blocks, eviction, deletion in the middle, a directed deletion-while-hashing race) judged by monitors: every byte read equals the torrent's true content, no panic.",
+        level_note="Atomicity of the critical sections (sync.RWMutex) and the Go memory model are assumed; the SHA-1 is an abstract function H in the theorems and the real one in the harness. The upload path (Piece messages to a remote peer) goes through Pieces.ReadAt; its short-read rejection is part of the peer-core model (C16).",
+        harness="swarm", args=["-prop", "C01"], check_module="PieceStoreCheck",
+        n_quick=300, n_thorough=4000,
+        trusted=COMMON_TRUST + ["verif hooks tor/piece/export_verif.go (VerifHolds, VerifSetAge, VerifBusy, VerifData)", "Go's sync.RWMutex gives the atomicity the model's actions assume"],
+        assumptions=["critical sections are atomic"],
+    ),
+    "C03": dict(
+        level_text="On the transition system of Model/PieceStore.v (see C01), over every interleaving: Pieces.count and the bytes accounted through alloc.Alloc/Free are exactly those of the pieces holding a buffer (c03_accounting: allocated once, freed once); eviction skips and deletion waits for a piece being hashed (c03_busy_is_kept); once deleted is latched a released piece stays released whatever happens (c03_deleted_stays_empty); an eviction reports a piece as complete exactly when it was readable (c03_evict_reports). Tie: the same sequences and stress runs as C01 with monitors on the real store: alloc.Bytes() equals the sum of the lengths of the buffers held after every operation and at the end of every stress run, Count matches, an eviction pass ends at or below its target unless nothing is left, evicts least recently accessed first, reports exactly the verified pieces it drops; after Del nothing is held, nothing is allocated, AddData fails with ErrDeleted; the global tor.Expire never crashes (also with a zero target or no torrents) and brings memory down to the low-water mark when it decides to evict.",
+        level_note="tor.Expire's fair-share arithmetic is checked by the harness on real torrents, not modelled; LRU order is checked only among pieces whose age the harness set. mmap/munmap are the operating system's.",
+        harness="swarm", args=["-prop", "C03"], check_module="PieceStoreCheck",
+        n_quick=300, n_thorough=4000,
+        trusted=COMMON_TRUST + ["verif hooks tor/piece/export_verif.go", "alloc.Bytes() is read as a process-wide counter between cases (cases run one at a time)"],
+        assumptions=["critical sections are atomic"],
+    ),
     "C02": dict(
         level_text="Model/Reader.v models tor.Reader's Seek and Read (through Pieces.ReadAt, one piece per call). Theorems for every geometry, range, position and buffer size: the bytes a Read returns are exactly bytes [offset+pos, offset+pos+cnt) of the torrent, inside the reader's range and inside one piece, cnt <= buffer, position advances by cnt, progress whenever possible, EOF exactly at the end of the range (c02_read_exact); Seek as a file's (c02_seek); any sequence of reads returns consecutive ranges (c02_reads_are_consecutive). Tie: random Seek/Read/Close sequences on a real tor.Reader over a fully available real torrent (all offsets, lengths, buffer sizes crossing piece boundaries, short last piece): result, error class and position compared with the model, bytes compared with the torrent's content. Liveness on the real event handler with real peers and an honest, unchoking scripted seed: a read blocks until the data arrives, returns correct data again after its pieces were evicted between reads (twice), fails with the context's error when cancelled and with ErrTorrentDead when the torrent is deleted, within a 6 s watchdog; afterwards neither the reader nor Torrent.requested holds any request (also for a reader in piece 0).",
         level_note="Liveness is observed on a finite set of scenarios, not proved; HTTP Range handling is net/http's ServeContent over this Reader (exercised by C19/C20's harness only for whole files) and concurrent FUSE reads are serialised by fuse.go's semaphore, neither is modelled here. A range that overruns the torrent is out of scope (Reader reports an error and EOF alternately).",
